@@ -463,3 +463,7 @@ def check(program: Program, run: Run) -> None:
     if n12 < 2:
         raise AnalysisError(f"instance count below floor: join condition obligations {n12}")
 
+    # ---- the mechanism keeps no state between renderings (shared rule, see families.inherit_history_dependence)
+    from ..families import inherit_history_dependence
+    run.rule("history: no function of this property's mechanism writes object / class / parameterizer state while rendering or memoises on a copied object (inherited from C02 and C01)")
+    inherit_history_dependence(program, run, "C07", r"^(Selectable|Table|Schema|Field|Star|AliasedQuery)\.(field|__getattr__|__getitem__|get_sql|get_table_name|star)\b", "the object that names a column or its qualifier is shared between row sources derived from one another, so a reference can be qualified with another source's name")
